@@ -325,7 +325,8 @@ fn c08_table_add_own_id() {
 // C12: `add_nodes(responder, names)` - nodes merely named in a response are admitted at most as
 // questionable; the local id and router addresses are never admitted whoever names them.
 // name kinds: 0 = fresh identity, 1 = the local id, 2 = a router's address (fresh id),
-//             3 = identity already stored in bucket 0 slot 0 (arbitrary standing), 4 = same as name 0
+//             3 = identity already stored in bucket 0 slot 0 (arbitrary standing), 4 = same as name 0,
+//             5 = a fresh id on the responder's own address
 // ---------------------------------------------------------------------------------------------
 
 fn named(kind: u8, which: u8, router: SocketAddr) -> NodeHandle {
@@ -333,6 +334,7 @@ fn named(kind: u8, which: u8, router: SocketAddr) -> NodeHandle {
         1 => NodeHandle::new(NodeId::from([0u8; 20]), concrete_addr_v4(50 + which)),
         2 => NodeHandle::new(crate::verif::id_with_prefix(0, 52 + which), router),
         3 => NodeHandle::new(crate::verif::id_with_prefix(slot_ideal(2, 0, 0), slot_key(0, 0)), concrete_addr_v4(slot_key(0, 0))),
+        5 => NodeHandle::new(crate::verif::id_with_prefix(1, 55), concrete_addr_v4(57)),
         _ => NodeHandle::new(crate::verif::id_with_prefix(1, 54), concrete_addr_v4(54)),
     }
 }
@@ -353,6 +355,11 @@ fn add_nodes_step(kind_a: u8, kind_b: u8) {
     // fresh names (keys 55) are at most questionable
     let (_, fresh) = census(&t, 55);
     if let Some(s) = fresh {
+        assert!(s == NodeStatus::Questionable, "C12: a node merely named in a response is reported good");
+    }
+    // a second id advertised on the responder's own address (key 56) is hearsay like any other
+    let (_, alias) = census(&t, 56);
+    if let Some(s) = alias {
         assert!(s == NodeStatus::Questionable, "C12: a node merely named in a response is reported good");
     }
     // router-addressed names (keys 53, 54) never appear: check_shape; own id: check_shape
@@ -391,4 +398,59 @@ fn c12_add_nodes_router_and_existing() {
 #[kani::stub(std::hash::RandomState::new, crate::verif::stub_random_state_new)]
 fn c12_add_nodes_duplicate_names() {
     add_nodes_step(0, 4);
+}
+
+#[kani::proof]
+#[kani::unwind(21)]
+#[kani::stub(std::hash::RandomState::new, crate::verif::stub_random_state_new)]
+fn c12_add_nodes_alias_of_responder() {
+    add_nodes_step(5, 1);
+}
+
+
+// ---------------------------------------------------------------------------------------------
+// C09: how the enumeration is set up over a table (no `next()` walk, F23): it starts at the
+// bucket index given by the prefix the target shares with the local id, hands the last
+// ("assorted") bucket's nodes out by their own ideal index, and reads sorted buckets by index.
+// ---------------------------------------------------------------------------------------------
+
+fn closest_setup(nb: usize) {
+    let s: usize = kani::any();
+    kani::assume(s <= MAX_BUCKETS);
+    clock::start_fixed();
+    let table = symbolic_table_n(nb, 8);
+    // target = local id (all zero) with bit s flipped; s = 160: the local id itself
+    let target = if s < MAX_BUCKETS {
+        NodeId::from([0u8; 20]).flip_bit(s)
+    } else {
+        NodeId::from([0u8; 20])
+    };
+    let it = table.closest_nodes(target);
+    assert!(it.start_index == s && it.current_index == s, "C09: enumeration does not start at the bucket sharing the target's prefix");
+    // sorted buckets are read by their own index, the last bucket only through the assorted list
+    let idx: usize = kani::any();
+    kani::assume(idx < MAX_BUCKETS);
+    let direct = bucket_iterator(&table.buckets, idx).is_some();
+    assert!(direct == (idx + 1 < nb), "C09: a bucket index is read from the wrong bucket");
+    match &it.assorted_nodes {
+        Some(a) => {
+            let mut j = 0;
+            while j < 8 {
+                // placeholders of the last bucket carry the zero id (ideal index 160) and are never live
+                assert!(a[j].0 == leading_bit_count(table.node_id, a[j].1.id()), "C09: an assorted node is handed out at a wrong bucket index");
+                assert!(!a[j].2, "C09: an assorted node is marked as already returned");
+                j += 1;
+            }
+        }
+        None => assert!(false, "C09: the last bucket's nodes are not enumerated"),
+    }
+    kani::cover!(s == MAX_BUCKETS, "target equals the local id");
+    kani::cover!(s + 1 < nb, "target inside the sorted buckets");
+}
+
+#[kani::proof]
+#[kani::unwind(21)]
+#[kani::stub(std::hash::RandomState::new, crate::verif::stub_random_state_new)]
+fn c09_closest_setup_b3() {
+    closest_setup(3);
 }
